@@ -15,10 +15,10 @@ from lib.ctx import MachineryError
 from harness.mt import mtlib
 
 QUICK_MC = ["err1", "badhdr2", "direct", "direrr", "trunc2", "memtight", "live", "live_trunc", "cat2_badpad", "cat1_trailpad",
-            "memstop", "memstop_noraise", "memstop_err", "live_memstop", "tell_cat2", "tell_err1", "failmain_err1", "failmain_direct"]
+            "memstop", "memstop_noraise", "memstop_err", "live_memstop", "tell_cat2", "tell_err1", "failmain_err1", "failmain_direct", "badinit", "badinit1", "badinit_direct"]
 ALL_MC = ["ok", "err2", "err1", "badhdr", "badhdr2", "direct", "direrr", "empty", "trunc", "trunc2", "badtail",
           "spur", "timeout", "ff_err", "ff_trunc", "memtight", "live", "live_trunc", "cat2", "cat2_pad0", "cat2_badpad", "cat1_trailpad", "reinit", "reinit_err",
-          "memstop", "memstop_noraise", "memstop_err", "live_memstop", "tell_cat2", "tell_err1", "failmain_err1", "failmain_direct", "failmain_cat2_pad0"]
+          "memstop", "memstop_noraise", "memstop_err", "live_memstop", "tell_cat2", "tell_err1", "failmain_err1", "failmain_direct", "failmain_cat2_pad0", "badinit", "badinit1", "badinit_direct"]
 
 def model_check(ctx):
     names = QUICK_MC if ctx.quick else ALL_MC
@@ -164,6 +164,24 @@ def make_files(ctx):
     # no integrity check at all (LZMA_TELL_NO_CHECK must say so, once, after the Stream Header)
     nc = coders.encode_xz(text[:50000], preset=0, check=lz.CHECK_NONE, block_size=20000)
     files.append(("nocheck3", nc, mtlib.layout(nc)))
+    # a Block Header that decodes but whose filter chain lzma_block_decoder_init() rejects: ARM BCJ + LZMA2 written
+    # with start offset 8, then the offset patched to 5 (not a multiple of 4) and the header CRC32 recomputed; in the
+    # second / the first Block
+    import zlib
+    bo = lz.OptBcj(); bo.start_offset = 8
+    chain = lz.make_filters([(lz.FILTER_ARM, bo), (lz.FILTER_LZMA2, lz.lzma_opts(0))])
+    armf = coders.encode_xz(text[:60000], check=lz.CHECK_CRC32, filters=chain, block_size=20000)
+    for nm, bi in (("badinit_b2", 1), ("badinit_b1", 0)):
+        la = mtlib.layout(armf); b = la["blocks"][bi]
+        x = bytearray(armf); h = x[b["off"]:b["off"] + b["bh"]]
+        pos = h.index(bytes([0x07, 0x04, 0x08, 0x00, 0x00, 0x00]))        # filter ID 7 (ARM), 4 bytes of properties, offset 8
+        h[pos + 2] = 5
+        h[-4:] = zlib.crc32(bytes(h[:-4])).to_bytes(4, "little")
+        x[b["off"]:b["off"] + b["bh"]] = h
+        b["hdr"] = "badinit"
+        for bb in la["blocks"]:
+            bb["fmem"] = int(lz.L().lzma_raw_decoder_memusage(chain))
+        files.append((nm, bytes(x), la))
     # empty Blocks: the queue head changes without a byte being copied (empty first Block, empty Block in the middle),
     # complete and cut in the middle of the Block that follows the empty one
     em = assemble_xz(lz, coders, [b"", text[:40000], b"", b"", rnd[:30000], b""])
